@@ -203,7 +203,15 @@ func (br *BlockReader) SkipNext() (*BlockMetadata, error) {
 
 	// move our reader forward; either by seeking or slurping
 
-	if brs, ok := br.r.(io.ReadSeeker); ok {
+	brs, ok := br.r.(io.ReadSeeker)
+	if ok {
+		// A reader may have a Seek method without being seekable (e.g. an *os.File over a
+		// pipe); a failed Seek consumed nothing, so fall back to reading the block bytes.
+		if _, err := brs.Seek(0, io.SeekCurrent); err != nil {
+			ok = false
+		}
+	}
+	if ok {
 		// carv1 and we don't know the size, so work it out and cache it so we
 		// can use it to determine over-reads
 		if br.readerSize == -1 {
